@@ -650,7 +650,7 @@ def run_gen(wd, job, res, errs, excused=None):
                                 "Excused": tla_set(defects() if excused is None else excused),
                                 "Keys": set(job["keys"]), "MaxFrames": job.get("frames", 1), "MaxMut": job["max_mut"],
                                 "MutDepth": job["mut_depth"]},
-                     invariants=GEN_INVS, view="View")
+                     invariants=[i for i in GEN_INVS if not (os.environ.get("C16_EXPLORE") and i == "ReadInvertsRender")], view="View")
         # -coverage makes TLC pathologically slow on the recursive operators of this module: off; the
         # per-operator statistics are computed from the DOC lines instead
         r = core.run_tlc("Gen_FormDoc", c, os.path.join(wd, job["name"]), workers=1, coverage=False, timeout=1500, xmx="6g",
@@ -672,7 +672,7 @@ def in_threads(fn, argss, width=GROUPS):
 
 def probe_excuses(wd, out):
     """the excuses of ReadInvertsRender are keyed on open findings: without them the model must still exhibit the finding"""
-    probes = {"F1": ["AttrMap"], "F3": ["BodyValue"], "F12": ["Body_duration"]}
+    probes = {"F1": ["AttrMap"], "F3": ["BodyValue"], "F12": ["Body_duration"], "F14": ["KO09"], "F15": ["KO11"], "F16": ["KO21"]}
     pres, perr = {}, []
     in_threads(run_gen, [(wd, dict(name="probe" + f, keys=probes[f], scope=0, max_mut=0, mut_depth=0, frames=1), pres, perr, set())
                          for f in sorted(defects()) if f in probes])
